@@ -8,7 +8,7 @@ from typing import Dict, List, Optional, Set, Tuple
 from ..fold import Folder, Sym
 from ..model import AnchorError, Program, dotted, last_attr, norm, parent, walk_no_nested
 from ..report import Check
-from .common import calls_in, guards_of, returns_of
+from .common import calls_in, guards_of, need_locals, returns_of
 
 # language reference 3.3.8 "Emulating numeric types" and 3.3.1 rich comparisons
 BINARY = {
@@ -62,6 +62,7 @@ def r19_1(prog: Program, chk: Check) -> None:
 def r19_2(prog: Program, chk: Check) -> None:
     chk.rule("R19.2", "left-then-right fallback: unsupported_operation is reported only when both the direct and the reflected call failed", floor=4)
     fn = prog.func("name_check_visitor", "NameCheckVisitor._visit_binop_no_mvv")
+    need_locals(fn, "method", "rmethod", "left_result", "right_result", "left_composite", "right_composite")
     site = prog.site("name_check_visitor", fn)
     # which local holds the errors of the direct / reflected call?
     err_of: Dict[str, str] = {}
